@@ -40,7 +40,9 @@ def variants(rng, v, cfg):
         k0, x0 = xs[0]
         xs2 = [(k0, ("kw", None, "zzz-changed"))] + xs[1:]
         out.append((("map", xs2), G.canon(("map", xs2)) == G.canon(v)))
-    if t == "float":
+    if t == "float" and float(v[1]) in (float("inf"), float("-inf")):
+        pass  # the literal overflows: repr() of the value is not a literal
+    elif t == "float":
         f = float(v[1])
         if f == 0:
             out.append((("float", "-0.0"), True))
